@@ -104,6 +104,34 @@ CHECKS["C17"] = dict(engine="partition", ref="DESIGN.md 5/C17",
           "call, second call, fresh backend) is probed key by key and validated by TLC against OverlayMon."),
     technique="TLA+ reference definition of overlay with laws checked by TLC + TLC trace validation of probed partition objects")
 
+_VER = ("Version.tla models function objects, module bindings (incl. aliases), the four hash-rule kinds resolved at computation "
+        "time, did_change per rule kind, the generation counter, the per-name version cache, per-object calculated version and "
+        "the (name, version)-keyed store; TLC checks Coherent (C13), Fresh (C01) and Deterministic (C03) over all event sequences "
+        "(redefinitions incl. defaults/refs/kind swaps, variable changes, alias rebinding, unregistered instances, queries, calls, "
+        "new processes) up to the bound, and exhibits each pinned-commit deviation (KF_DefaultsNotHashed, KF_AdoptCached, "
+        "KF_AliasBlind) as a counterexample. Generated programs (harness/vprogs.py) are written as real packages and executed by "
+        "real interpreter processes sharing one store; ")
+CHECKS["C01"] = dict(engine="version", ref="DESIGN.md 5/C01",
+    text=_VER + "edit histories (slots body/const/default/kw-default/nested-code/set/tuple constants, call edges, variables rebinding and "
+    "in-place mutation, explicit versions, alias rebinding) delivered cross-process or in-process; every memoized call is compared with the "
+    "plain twin of the current program and validated by TLC against VersionMon (equal or UndeclaredDependencyError).",
+    technique="TLA+ versioning mechanism spec (TLC) + TLC trace validation of edit histories of generated programs against their un-memoized twin")
+CHECKS["C03"] = dict(engine="version", ref="DESIGN.md 5/C03",
+    text=_VER + "each program runs in 3-4 interpreters with different PYTHONHASHSEED, permuted definition order and permuted query order; "
+    "VersionMon requires identical versions in every process and no body execution after the first process.",
+    technique="TLA+ versioning mechanism spec (TLC) + TLC trace validation of multi-process runs under varying hash seeds / orders")
+CHECKS["C13"] = dict(engine="version", ref="DESIGN.md 5/C13",
+    text=_VER + "in-process histories (re-executed and edited definitions in any order, variable rebinding/mutation, late definition of an "
+    "undefined symbol, memento<->plain swaps, clones/partials/unregistered wrappers) with version queries interleaved; each answer is "
+    "compared with a fresh interpreter's answer for the resulting program (VersionMon).",
+    technique="TLA+ model of generation counter / version cache / did_change (TLC) + TLC trace validation against fresh-interpreter ground truth")
+CHECKS["C14"] = dict(engine="version", ref="DESIGN.md 5/C14",
+    text=_VER + "ClosureMon defines reachability, direct references and first-memento frontier on the logged reference graph in TLA+; "
+    "dependencies() of every memento function of all three-node graphs (kinds, arbitrary edges incl. cycles, four reference forms) and of "
+    "random larger graphs is validated; acyclic programs with hidden dynamic calls are called plainly and through modifiers and must raise "
+    "UndeclaredDependencyError exactly when an executed function calls outside its static closure.",
+    technique="TLA+ reachability definitions evaluated by TLC on logged reference graphs (trace validation) + enforcement calls")
+
 NOT_YET = {
 }
 
@@ -142,6 +170,8 @@ def main():
             "add_only": True,
         },
         "engines": [
+            {"name": "version", "path": "harness/check_version.py", "serves_properties": ["C01", "C03", "C13", "C14"],
+             "kind_free_text": "spec/Version.tla + VersionMon/ClosureMon, program generator harness/vprogs.py, multi-process driver ver_worker.py/ver_child.py"},
             {"name": "runner", "path": "harness/check_runner.py", "serves_properties": ["C02", "C10", "C15", "C16"],
              "kind_free_text": "spec/Runner.tla + ProgSem.tla + RunnerMon/TransparentMon, program generator harness/progs.py, runner_worker.py, values_worker.py"},
             {"name": "partition", "path": "harness/check_part.py", "serves_properties": ["C17"],
